@@ -16,9 +16,16 @@ Next == \E o \in Ops : Step(o)
 Spec == Init /\ [][Next]_vars
 View == st
 Inv == AWellFormed(st) /\ C01View(V(st))
+\* refinement: the lengths of every list-level step are a step of the integer abstraction AdaptiveLen
+\* (whose bounds Apalache proves inductive for EVERY size)
+AL == INSTANCE AdaptiveLen WITH C <- Size, t1 <- Len(st.t1), t2 <- Len(st.t2), b1 <- Len(st.b1), b2 <- Len(st.b2), p <- st.p
 StepOK == LET o == hist'[Len(hist')]
               x == AApply(o, st)
-          IN GenericStepOK(V(st), o @@ [ret |-> x.ret], V(x.st), AReadOnly, TRUE)
+              n == x.st
+          IN /\ GenericStepOK(V(st), o @@ [ret |-> x.ret], V(x.st), AReadOnly, TRUE)
+             /\ Assert(AL!NextRel(Len(st.t1), Len(st.t2), Len(st.b1), Len(st.b2), st.p,
+                                  Len(n.t1), Len(n.t2), Len(n.b1), Len(n.b2), n.p),
+                       <<"step is not a step of AdaptiveLen", st, o, n>>)
 EmitState == IF Emit THEN PrintT(<<"STATE", ToJson([path |-> hist])>>) ELSE TRUE
 EmitOps == IF Emit THEN PrintT(<<"OPS", ToJson([ops |-> Ops])>>) ELSE TRUE
 ASSUME EmitOps
